@@ -497,3 +497,38 @@ Definition vdesc (d : desc) : val :=
 Definition run_describe (ds : list desc) (bg : option Z) (ns : list Z) : val :=
   VL [VL (map (fun n => vres vdesc (get_segment_description ds n)) ns);
       vz_list (property_categories ds bg); vz_list (property_types ds bg)].
+
+(* ------------------------------------------------------------------ *)
+(* Objects whose DimensionIndexValues are NOT the ones highdicom writes (other
+   encoders: index values ranked over the segment numbers / plane positions that
+   actually occur, gaps, other direction).  Every FrameLUT row carries, besides
+   the value columns of the frame (plane key, ReferencedSegmentNumber), the index
+   columns: x_kix = the DimensionIndexValues along the plane dimensions (encoded
+   as one Z by the harness), x_six = the value along the ReferencedSegmentNumber
+   dimension.  image.py _normalize_dimension_queries picks the column a query is
+   matched against from its use_indices flag; _iterate_indices_for_stack is
+   called with stack_dimension_use_indices = True only by
+   get_pixels_by_dimension_index_values and with channel_dimension_use_indices =
+   False by every entry point (segments are always addressed by NUMBER). *)
+Record ixframe := mkIx { x_frame : frame; x_kix : Z; x_six : Z }.
+Definition lut_col (use_indices : bool) (index_col value_col : Z) : Z :=
+  if use_indices then index_col else value_col.
+Definition stack_use_indices (e : entry) : bool := match e with EDimIdx => true | _ => false end.
+Definition channel_use_indices (e : entry) : bool := match e with _ => false end.
+Definition lut_row (e : entry) (x : ixframe) : frame :=
+  mkFrame (lut_col (stack_use_indices e) (x_kix x) (fkey (x_frame x)))
+          (lut_col (channel_use_indices e) (x_six x) (fseg (x_frame x)))
+          (fpix (x_frame x)).
+Definition lut_view (e : entry) (xs : list ixframe) : list frame := map (lut_row e) xs.
+Definition with_frames (st : stored) (fr : list frame) : stored :=
+  mkStored (s_ty st) (s_segs st) (s_bits st) (s_maxfrac st) (s_npix st) (s_bg st) fr (s_known st).
+(* keys: plane keys, or (EDimIdx) encoded dimension index values *)
+Definition read_ix (e : entry) (assert_missing : bool) (st : stored) (xs : list ixframe)
+           (keys req : list Z) (o : opts) : res (dtype * output) :=
+  read e assert_missing (with_frames st (lut_view e xs)) keys req o.
+Definition run_read_ix (e : entry) (am : bool) (st : stored) (xs : list ixframe) (keys req : list Z) (o : opts) : val :=
+  vres (fun r => VL [VS (dtype_name (fst r)); voutput (snd r)]) (read_ix e am st xs keys req o).
+
+(* the stored pixel values, frame by frame: what the object must still hold after any sequence of reads
+   (reads are functions of the stored object; they never change it) *)
+Definition run_stored_state (st : stored) : val := VL (map (fun f => vz_list (fpix f)) (s_frames st)).
